@@ -239,3 +239,33 @@ func VerifH_C08_plugin_outputs_conform() {
 	}
 	verifEpilogue(e, r, false)
 }
+
+// C09: the deadlock detector of the run loop counts steps by State(). A step that has been GIVEN the
+// input it was waiting for must not keep showing as waiting_for_input, otherwise a step goroutine that
+// is merely slow (delayed > 30 ms between two of its actions) makes the detector abort a healthy run.
+// The harness provides each stage input at every point of the step's progress and reads State() as
+// the detector would, before the step's goroutine is given a chance to run.
+func VerifH_C09_no_waiting_window() {
+	e := verifNewEnv(true)
+	e.lazy = false
+	e.execMode = 1
+	r := verifStart(e)
+	given := map[string]bool{}
+	stages := []string{"deploy", "enabling", "starting"}
+	upto := verifrt.Choice("stage", 3)
+	for a := 0; a <= upto; a++ {
+		if verifrt.Choice("let-step-run-first", 2) == 1 {
+			verifrt.Settle() // the step reaches its wait for this input before the input arrives
+		}
+		verifAct(e, r, given, a)
+		if a == upto {
+			rs := r.(*runningStep)
+			rs.lock.Lock()
+			st, cs := rs.state, string(rs.currentStage)
+			rs.lock.Unlock()
+			verifrt.Reach("checked-" + stages[a])
+			verifrt.Assert(!(st == step.RunningStepStateWaitingForInput && cs == stages[a]), "a step that was given its "+stages[a]+" input no longer shows as waiting for input in that stage")
+		}
+	}
+	verifEpilogue(e, r, false)
+}
